@@ -537,6 +537,8 @@ class World:
         n = self.handles.get(op["h"])
         if n is None or not self.is_retired(n) or not n.detached:
             raise SkipOp("no stale handle")
+        if op["what"] == "replace" and not L.PROP_FIELDS[cname(n)]:
+            raise SkipOp("no property")
         self.before()
         try:
             if op["what"] == "detach":
@@ -547,8 +549,6 @@ class World:
                 # a second functional update of the same superseded object (n.replace(a=..); n.replace(b=..)): only a
                 # detached copy may come back, the attached world is none of its business
                 props = L.PROP_FIELDS[cname(n)]
-                if not props:
-                    raise SkipOp("no property")
                 ret = n.replace(**{props[0][0]: op.get("value", "st")})
                 if not ret.detached:
                     raise self.viol("C18.6 replace-effect", "C18.6:stale-replace-attached", "replace() on an already superseded (detached) node returned an attached node")
@@ -871,7 +871,7 @@ class Gen:
         elif depth <= 0 or r.random() < 0.4:
             cls = r.choice(["LLeaf", "LLeaf", "LLeafB", "LBlock"] if self.cfg.get("falsy") else ["LLeaf", "LLeaf", "LLeafB"])
         else:
-            cls = r.choice(["LInner", "LInner", "LReq", "LBlock"] if self.cfg.get("falsy") else ["LInner", "LInner", "LReq"])
+            cls = r.choice((["LInner", "LInner", "LReq", "LBlock"] if self.cfg.get("falsy") else ["LInner", "LInner", "LReq"]) + (["LAny"] if self.cfg.get("any_field") else []))
         if allowed == ("any",) and r.random() < self.cfg["p_ref"]:
             cands = [h for h in self.free_nodes() if h not in used and id(self.w.handles[h]) not in self.exclude and self.usable_child(h)]
             if cands:
@@ -899,6 +899,11 @@ class Gen:
             ch["lst"] = [self.spec(depth - 1, used=used) for _ in range(r.choice([0, 0, 1, 2]))]
             if r.random() < 0.3:
                 ch["only_leaf"] = self.spec(0, ("LLeaf",), used=used)
+        elif cls == "LAny":
+            p["tag"] = r.choice(self.cfg["strs"])
+            if r.random() < 0.85:
+                ch["payload"] = self.spec(depth - 1, used=used)
+            ch["items"] = [self.spec(depth - 1, used=used) for _ in range(r.choice([0, 0, 1, 2]))]
         elif cls == "LBlock":
             # empty (falsy) most of the time when it is a leaf position
             n = 0 if depth <= 0 or r.random() < 0.5 else r.choice([1, 2])
@@ -1310,7 +1315,7 @@ class Gen:
 
     def rj_replace_duplicate_children(self) -> dict[str, Any] | None:
         r = self.r("rj6")
-        ref = self.pick_ref(lambda o: cname(o) == "LInner", root_bias=0.4)
+        ref = self.pick_ref(lambda o: cname(o) in ("LInner", "LAny"), root_bias=0.4)
         if ref is None:
             return None
         kids = self.fresh_children(r.choice([1, 2]))
@@ -1325,7 +1330,7 @@ class Gen:
 
     def rj_replace_parent_collision(self) -> dict[str, Any] | None:
         r = self.r("rj7")
-        ref = self.pick_ref(lambda o: cname(o) == "LInner" and not o.detached, root_bias=0.4)
+        ref = self.pick_ref(lambda o: cname(o) in ("LInner", "LAny") and not o.detached, root_bias=0.4)
         bad = self.attached_subtree_ref()
         if ref is None or bad is None:
             return None
@@ -1335,6 +1340,8 @@ class Gen:
             return None
         kids = self.fresh_children(r.choice([0, 1, 2]))
         kids.insert(r.randint(0, len(kids)), {"ref": bad})
+        if cname(o) == "LAny":
+            return {"act": "replace", "n": ref, "ch": {"items": {"specs": kids, "kind": "tuple"}}, "bad": "replace_parent_collision_any_field_receiver"}
         return {"act": "replace", "n": ref, "ch": {"lst": {"specs": kids, "kind": "list"}}, "bad": "replace_parent_collision"}
 
     def rj_replace_with_parented(self) -> dict[str, Any] | None:
@@ -1598,6 +1605,7 @@ def make_config(rseed: int, prop: str, tier: str, faults: bool) -> dict[str, Any
         "weights": weights,
         "reject_kinds": REJECT_KINDS if r.random() < 0.6 else r.sample(REJECT_KINDS, 4),
         "falsy": r.random() < 0.4,
+        "any_field": r.random() < 0.4,
     }
 
 
